@@ -213,14 +213,15 @@ func (p *vRHDecline) PostProcessAfterInstantiation(c any, n string) (bool, error
 // holder fails once (when armed); every later call succeeds
 type vRHFlaky struct {
 	processors.DefaultInstantiationAwareComponentPostProcessor
-	armed bool
-	fired bool
+	armed    bool
+	fired    bool
+	onHolder bool // the transient fault hits the holder's own initialization (after it was populated)
 }
 
 func (p *vRHFlaky) LazyInit()  {}
 func (p *vRHFlaky) Order() int { return 9 }
 func (p *vRHFlaky) PostProcessBeforeInitialization(c any, n string) (any, error) {
-	if p.armed && !p.fired && n != "holder" {
+	if p.armed && !p.fired && (n == "holder") == p.onHolder {
 		p.fired = true
 		return nil, errBoom
 	}
@@ -282,6 +283,9 @@ func newRHOrder(orderMix bool) *vRH {
 	var flaky *vRHFlaky
 	if nd.Param("FLAKY", 0) == 1 {
 		flaky = &vRHFlaky{armed: nd.Bool()}
+		if flaky.armed {
+			flaky.onHolder = nd.Bool()
+		}
 		ps = append(ps, flaky)
 	}
 	for _, p := range ps {
@@ -437,6 +441,19 @@ func VerifC06() {
 	r := newRH()
 	ps, ts := vProviders(k, false)
 	h, single, multi := vHolder(kind)
+	var builtin *vPA
+	if nd.Param("PRESET", 1) == 1 && nd.Bool() {
+		// the application left something in the field before start-up (an object that is not a component)
+		builtin = &vPA{vAttr{id: 99, nm: "builtin"}}
+		switch x := h.(type) {
+		case *vHPtrSlice:
+			x.F = []*vPA{builtin}
+			nd.Cover("slice field pre-populated before start-up")
+		case *vHIfaceSlice:
+			x.F = []vI1{builtin}
+			nd.Cover("slice field pre-populated before start-up")
+		}
+	}
 	// registration order: holder position is arbitrary
 	hpos := nd.Choose(k + 1)
 	var hm *component_definition.Meta
@@ -503,6 +520,10 @@ func VerifC06() {
 		return
 	}
 	got := multi()
+	if len(expected) == 0 && builtin != nil && len(got) == 1 && got[0] == any(builtin) {
+		// an optional point that cannot be satisfied is left untouched (what the application put there stays)
+		return
+	}
 	nd.Assert(len(got) == len(expected), "C06: a slice point receives every compatible component exactly once")
 	for _, e := range expected {
 		c := 0
@@ -1333,4 +1354,45 @@ func VerifC06Sealed() {
 		nd.Assert(len(h.All) == 1 && h.All[0] == vSealed(a), "C06: a slice point receives every implementer of a sealed interface exactly once")
 	}
 	nd.Cover("sealed interface")
+}
+
+// C09/C08: optional qualified points none of whose candidates carries the requested qualifier
+// stay empty and never fail start-up; the required flavour fails cleanly.
+type vHOptQual struct {
+	Q  vI1   `wire:",qualifier=nobody,required=false"`
+	QS []vI1 `wire:",qualifier=nobody,required=false"`
+	R  vI1   `wire:""`
+}
+
+type vHReqQual struct {
+	Q vI1 `wire:",qualifier=nobody"`
+}
+
+func VerifC09OptionalQualified() {
+	r := newRH()
+	k := nd.Param("K", 2)
+	var first any
+	for i := 0; i < k; i++ {
+		p := &vPA{vAttr{id: i, nm: vNames[i], q: "q" + vNames[i], hasQ: true}}
+		if i == 0 {
+			first = p
+		}
+		r.register(p, vNames[i])
+	}
+	_ = first
+	if nd.Bool() {
+		h := &vHReqQual{}
+		r.register(h, "holder")
+		_, err := r.f.doGetComponent("holder")
+		nd.Assert(err != nil, "C09: a required qualified point none of whose candidates carries the qualifier is reported as an error")
+		nd.Cover("required qualified point without a match")
+		return
+	}
+	h := &vHOptQual{}
+	r.register(h, "holder")
+	_, err := r.f.doGetComponent("holder")
+	nd.Assert(err == nil, "C09: points marked required=false that cannot be satisfied never cause a failure")
+	nd.Assert(h.Q == nil && len(h.QS) == 0, "C09: an optional point that cannot be satisfied leaves its field at the zero value")
+	nd.Assert(h.R != nil, "C08: the other points of the holder are still populated")
+	nd.Cover("optional qualified point without a match")
 }
